@@ -69,8 +69,11 @@ class ScopeGen:
             a, b = rng.sample(NAMES, 2)
             if not any(l.lstrip().startswith((a + " ", b + " ", "inherit " + a, "inherit " + b)) or (" " + a + ";") in l or (" " + b + ";") in l for l in lines):
                 hname = "s%d" % (self.k + 1)
-                lines.append("%sinherit (%s) %s;" % (ind, hname, a))
-                lines.append("%sinherit (%s) %s;" % (ind, hname, b))
+                if rng.random() < 0.5:
+                    lines.append("%sinherit (%s) %s;" % (ind, hname, a))
+                    lines.append("%sinherit (%s) %s;" % (ind, hname, b))
+                else:
+                    lines.append("%sinherit (%s) %s %s;" % (ind, hname, a, b))  # both names in one clause
                 lines.append("%s%s = { %s = %s; %s = %s; };" % (ind, hname, a, b, b, self.lit()))
         if self.cycles and rng.random() < 0.06 and not names:
             a, b = rng.sample(NAMES, 2)
